@@ -773,6 +773,79 @@ def run_malformed(ctx, c):  # noqa: C901
     ctx.outcome(f'malformed:{r[0] if r[0] == "ok" else r[1]}')
 
 
+# =============================================================================================
+# (h) class objects that die and whose address is reused by another class (release build: ASan's quarantine delays reuse)
+
+TYPE_REUSE_ARM = ('is_namedtuple_class', 'is_namedtuple-instance', 'flatten-empty-instance', 'flatten-instance-of-containers',
+                  'is_structseq_class', 'namedtuple_fields')
+TYPE_REUSE_NEXT = ('plain-object', 'list-subclass', 'tuple-subclass', 'dict-subclass', 'namedtuple-other-fields')
+
+
+def type_reuse_cases():
+    return [{'grid': 'type-reuse', 'arm': a, 'next': n, 'crash_key': f'type-address-reuse:{a}:{n}'}
+            for a in TYPE_REUSE_ARM for n in TYPE_REUSE_NEXT]
+
+
+def run_type_reuse(ctx, c):
+    import gc  # noqa: PLC0415
+    from collections import namedtuple  # noqa: PLC0415
+
+    ctx.count()
+    ctx.cls(tuple(sorted((k, str(v)) for k, v in c.items())))
+    reused = 0
+    for rnd in range(120):
+        NT = namedtuple(f'R{rnd}', 'a b')  # noqa: PYI024
+        addr = id(NT)
+        arm = c['arm']
+        if arm == 'is_namedtuple_class':
+            optree.is_namedtuple_class(NT)
+        elif arm == 'is_namedtuple-instance':
+            optree.is_namedtuple(NT(1, 2))
+        elif arm == 'flatten-empty-instance':
+            optree.tree_leaves(namedtuple(f'E{rnd}', '')())  # noqa: PYI024
+            optree.tree_leaves(NT([], None))
+        elif arm == 'flatten-instance-of-containers':
+            optree.tree_structure(NT((), []))
+        elif arm == 'is_structseq_class':
+            optree.is_structseq_class(NT)
+        else:
+            optree.namedtuple_fields(NT)
+        del NT
+        gc.collect()
+        nxt = c['next']
+        made = []
+        for k in range(6):
+            if nxt == 'plain-object':
+                cls = type(f'P{rnd}_{k}', (), {})
+                inst, want = cls(), 'LEAF'
+            elif nxt == 'list-subclass':
+                cls = type(f'P{rnd}_{k}', (list,), {})
+                inst, want = cls([1]), 'LEAF'
+            elif nxt == 'tuple-subclass':
+                cls = type(f'P{rnd}_{k}', (tuple,), {})
+                inst, want = cls((1, 2)), 'LEAF'
+            elif nxt == 'dict-subclass':
+                cls = type(f'P{rnd}_{k}', (dict,), {})
+                inst, want = cls(a=1), 'LEAF'
+            else:
+                cls = namedtuple(f'P{rnd}_{k}', 'x y z')  # noqa: PYI024
+                inst, want = cls(1, 2, 3), 'NAMEDTUPLE'
+            made.append(cls)
+            if id(cls) == addr:
+                reused += 1
+            r = outcome_of(lambda inst=inst: (optree.tree_structure(inst).kind.name, len(optree.tree_leaves(inst)),
+                                              optree.is_namedtuple(inst), optree.is_structseq(inst)))
+            exp = ('ok', (want, 3 if want == 'NAMEDTUPLE' else 1, want == 'NAMEDTUPLE', False))
+            if r != exp:
+                ctx.violation('type-address-reuse', f'{PROP}:type-address-reuse:wrong-classification', c,
+                              f'round {rnd}: an instance of a fresh {nxt} class (address reused: {id(cls) == addr}) -> {r!r}, '
+                              f'expected {exp!r}')
+                return
+        del made
+    ctx.extra['type-reuse-address-reused'] += reused
+    ctx.outcome(f'type-reuse:reused={min(reused, 1)}')
+
+
 def e1_universe():
     from mc import e1  # noqa: PLC0415
 
@@ -782,12 +855,12 @@ def e1_universe():
 # =============================================================================================
 
 def all_cases(tier):
-    cases = depth_cases() + deep_spec_cases() + mutation_cases() + argument_cases() + setstate_cases() + alias_cases() + malformed_cases()
+    cases = depth_cases() + deep_spec_cases() + mutation_cases() + argument_cases() + setstate_cases() + alias_cases() + malformed_cases() + type_reuse_cases()
     return cases
 
 
 RUNNERS = {'depth': run_depth, 'self-ref': run_depth, 'deep-spec': run_deep_spec, 'mutation': run_mutation,
-           'argument': run_argument, 'index': run_argument, 'setstate': run_setstate, 'setstate-top': run_setstate, 'alias': run_alias, 'malformed': run_malformed}
+           'argument': run_argument, 'index': run_argument, 'setstate': run_setstate, 'setstate-top': run_setstate, 'alias': run_alias, 'malformed': run_malformed, 'type-reuse': run_type_reuse}
 
 
 REL_SHARDS = 4  # shards 0..3 run on the release build with the default 8 MB stack: deep-spec grid only
@@ -796,8 +869,8 @@ REL_SHARDS = 4  # shards 0..3 run on the release build with the default 8 MB sta
 def run_shard(ctx):
     sys.setrecursionlimit(20000)
     cases = all_cases(ctx.tier)
-    deep = [c for c in cases if c['grid'] == 'deep-spec']
-    rest = [c for c in cases if c['grid'] != 'deep-spec']
+    deep = [c for c in cases if c['grid'] in ('deep-spec', 'type-reuse')]  # run on the release build
+    rest = [c for c in cases if c['grid'] not in ('deep-spec', 'type-reuse')]
     if ctx.nshards <= REL_SHARDS:
         mine = list(enumerate(cases))
     elif ctx.shard < REL_SHARDS:
